@@ -1,5 +1,7 @@
 import AdaVerif.Lemmas.AggEditors
 import AdaVerif.Lemmas.AggSpec
+import AdaVerif.Model.AggPath
+import AdaVerif.Lemmas.PathMain
 /-
 C07 — the single-buffer URL stays structurally consistent.
 
@@ -220,6 +222,68 @@ theorem setters_refine_standard (u : Spec.Url) (v : Bytes) :
     (u.isOpaque = false → layout (ofUrl (Spec.setHash u [])) = Model.Agg.clearHash (layout (ofUrl u))) :=
   ⟨setUsername_refines u v, setPassword_refines u v, setSearch_refines u v, setHash_refines u v,
    clearSearch_refines u, clearHash_refines u⟩
+
+/-! ### the path builder of the single buffer -/
+open AdaVerif.Lemmas.FP AdaVerif.Lemmas.PP in
+/-- at the end of the buffer there is no path, no query and no fragment -/
+theorem isAtPath_layout (l : L) (h : isAtPath (layout l) = true) : l.path = [] ∧ l.query = none ∧ l.frag = none := by
+  unfold isAtPath at h
+  rw [buf_path, ps_eq] at h
+  simp only [List.length_append, beq_iff_eq] at h
+  have hp : l.path.length = 0 := by omega
+  have hq : (queryS l.query).length = 0 := by omega
+  have hf : (fragS l.frag).length = 0 := by omega
+  refine ⟨List.eq_nil_of_length_eq_zero hp, ?_, ?_⟩
+  · cases hx : l.query with
+    | none => rfl
+    | some q => rw [hx] at hq; simp [queryS] at hq
+  · cases hx : l.frag with
+    | none => rfl
+    | some f => rw [hx] at hf; simp [fragS] at hf
+
+open AdaVerif.Lemmas.FP AdaVerif.Lemmas.PP in
+/-- **consume_prepared_path commutes with the layout**: outside the in-place shortcut it is `update_base_pathname`
+    of the looped path; in the shortcut (trivial input at the very end of the buffer) it lays out "/" + input -/
+theorem consume_prepared_path_layout (l : L) (ty : Nat) (input : Bytes) (h : NoAuthNoCred l) (hd : DashDotOk l) :
+    consumePreparedPath (layout l) ty input =
+      (if Model.PathPrepared.isTrivial input ty && isAtPath (layout l) then layout { l with path := 0x2F :: input }
+       else layout { l with dashdot := newDashDot l (Model.PathPrepared.pathLoops input ty l.path),
+                             path := Model.PathPrepared.pathLoops input ty l.path }) := by
+  unfold consumePreparedPath
+  by_cases hc : (Model.PathPrepared.isTrivial input ty && isAtPath (layout l)) = true
+  · simp only [hc, ↓reduceIte]
+    simp only [Bool.and_eq_true] at hc
+    obtain ⟨hp, hq, hf⟩ := isAtPath_layout l hc.2
+    simp [layout, hp, hq, hf, queryS, fragS, List.append_assoc]
+  · simp only [hc, Bool.false_eq_true, ↓reduceIte]
+    rw [getPathname_layout, updateBasePathname_layout l _ h hd]
+
+open AdaVerif.Lemmas.FP AdaVerif.Lemmas.PP in
+/-- **the single buffer's path builder is the Standard's path state**: after `consume_prepared_path(input)` the
+    pathname getter returns the serialisation of `Spec.pathSegments` over the segments of `input`, started from the
+    segments of the old pathname -- on both code paths (in-place shortcut, copy-and-write-back) -/
+theorem consume_prepared_path_is_path_state (l : L) (scheme : Bytes) (ty : Nat) (hty : TyOf scheme ty) (input : Bytes)
+    (segs : List Bytes) (hp : l.path = pathText segs) (hn : NoSlash segs) (h : NoAuthNoCred l) (hd : DashDotOk l) :
+    getPathname (consumePreparedPath (layout l) ty input) =
+      pathText (Spec.pathSegments scheme (Spec.splitPath (Spec.isSpecialScheme scheme) input) segs) := by
+  rw [consume_prepared_path_layout l ty input h hd]
+  split
+  · rename_i hc
+    simp only [Bool.and_eq_true] at hc
+    obtain ⟨hp0, _, _⟩ := isAtPath_layout l hc.2
+    rw [getPathname_layout]
+    have hsegs : segs = [] := by
+      rw [hp0] at hp
+      cases segs with
+      | nil => rfl
+      | cons a t => simp [pathText] at hp
+    subst hsegs
+    have := trivial_sound scheme ty hty input [] hc.1
+    simpa [pathText] using this
+  · rw [getPathname_layout]
+    simp only
+    rw [hp]
+    exact pathLoops_eq scheme ty hty input segs hn
 
 /-! ### non-vacuity -/
 def exL : L := { scheme := ofStr "https:", auth := true, user := ofStr "u", pass := [], host := ofStr "h.test",
